@@ -3,7 +3,7 @@
 from . import absint, machine, mir
 from .absint import Enum, UNKNOWN
 from .machine import NOT, Machine, ok, err, some, none, Iter, Map
-from .importtables import Val, World, ITP, contains_id
+from .importtables import Val, World, ITP, contains_id, fresh_fields
 
 
 def find_enum(v, name, depth=10):
@@ -38,7 +38,7 @@ def load_table(fb):
         for scenario in ("ok", "load-fails", "in-progress"):
             lib = Val("library-name")
             libtok, E = Val("library"), Val("load-error")
-            selfv = [UNKNOWN for _ in w.fields]
+            selfv = fresh_fields(w.fb)
             marks = Map()
             outer = Val("outer-library-being-loaded")        # an enclosing load in progress: its mark must survive everything
             marks.d[machine.key_of(outer)] = (outer, True)
@@ -133,7 +133,7 @@ def cache_table(fb):
         NF = Val("library-file-not-found")
         if scenario == "second":
             cache.d[machine.key_of(name)] = (name, inst)
-        selfv = [UNKNOWN for _ in fields]
+        selfv = fresh_fields(fb)
         selfv[fields.index("libraries")] = cache
         selfv[fields.index("lib_loader")] = [factories]
         ev = []
@@ -244,7 +244,7 @@ def definition_table(fb):
         libname = Val("library-name")
         libdef = [libname, [decl("ImportDeclaration", I1), decl("Export", exports), decl("Begin", [S1, S2])]]
         importer_env = Val("importer-env")
-        selfv = [UNKNOWN for _ in fields]
+        selfv = fresh_fields(fb)
         selfv[fields.index("env")] = importer_env
         VA, VB = Val("value-of-a"), Val("value-of-b")
         bound = {"a": VA, "b": VB, "hidden": Val("value-of-hidden")}
@@ -368,7 +368,7 @@ def location_table(fb):
             located.name, located.adt = "Located", "error::Located"
             pd, cwd = PathTok("program-directory"), PathTok("working-directory")
             pd.flavour, cwd.flavour = has_dir, "absolute"
-            selfv = [UNKNOWN for _ in fields]
+            selfv = fresh_fields(fb)
             selfv[fields.index("program_directory")] = some(pd) if has_dir else none()
             ev = []
 
@@ -551,7 +551,7 @@ def statement_table(fb):
     rows = []
     for kind in ("definition", "syntax-definition"):
         own_env, own_syntax, lib_env = Val("interpreter-env"), Val("interpreter-syntax-env"), Val("library-env")
-        selfv = [UNKNOWN for _ in fields]
+        selfv = fresh_fields(fb)
         selfv[fields.index("env")] = own_env
         if "syntax_env" in fields:
             selfv[fields.index("syntax_env")] = own_syntax
@@ -639,7 +639,7 @@ def register_table(fb):
         oldF = Val("old-factory-of-X")
         factories.d[machine.key_of(X)] = (X, oldF)
         factories.d[machine.key_of(Y)] = (Y, Val("factory-of-Y"))
-        selfv = [UNKNOWN for _ in fields]
+        selfv = fresh_fields(fb)
         selfv[fields.index("libraries")] = cache
         selfv[fields.index("lib_loader")] = [factories]
         mc = Machine(fb, max_visits=8, budget=500)
@@ -688,4 +688,109 @@ def rule_register(ctx, rule):
         ctx.oblige(good)
         if not good:
             ctx.report(rule, key, msg, where_of(f))
+    return decided
+
+
+# ------------------------------------------------------------------------------------------------ what a library file leaves behind
+
+
+def file_load_table(fb):
+    """get_library(requested) on an interpreter that knows no factory for it, the library file exists and holds (a) another library
+    before the requested one, (b) only another library (a wrongly named file): what is registered / cached afterwards.  The file
+    lookup, the reader and the choice of the form are followed; the file system, the token reader and the instantiation are answered."""
+    f = fb.find(ITP + "get_library")
+    fields = [x["name"] for x in fb.adt("interpreter::interpreter::Interpreter")["variants"][0]["fields"]]
+    st = dict((n, i) for i, n in fb.variants("parser::parser::Statement"))
+    rows = []
+    for scenario in ("other-library-before-the-requested-one", "only-another-library"):
+        want, other = Val("requested-name"), Val("other-name")
+        located = Enum(0, [want, some([3, 1])])
+        located.name, located.adt = "Located", "error::Located"
+
+        def libdef(name):
+            ld = Enum(0, [[name, []], some([9, 1])])
+            ld.name, ld.adt = "Located", "error::Located"
+            s_ = Enum(st["LibraryDefinition"], [ld])
+            s_.name, s_.adt = "LibraryDefinition", "parser::parser::Statement"
+            return s_
+        seq = [ok(libdef(other)), ok(libdef(want))] if scenario.startswith("other") else [ok(libdef(other))]
+        k = [0]
+        parser, inst = Val("parser"), Val("instance")
+        cache, factories = Map(), Map()
+        selfv = fresh_fields(fb)
+        selfv[fields.index("libraries")] = cache
+        selfv[fields.index("lib_loader")] = [factories]
+        selfv[fields.index("program_directory")] = some(PathTok("program-directory"))
+
+        def icpt(mc, c, a, tt, g, seq=seq, k=k, parser=parser, inst=inst):
+            end = c.rsplit("::", 1)[-1]
+            if c.endswith("env::current_dir"):
+                return ok(PathTok("working-directory"))
+            if c.endswith("LibraryName::path"):
+                return PathTok("relative-path-of-name")
+            if ("path::Path" in c or "PathBuf" in c) and end in ("join", "with_extension", "push", "with_file_name", "to_path_buf", "to_owned",
+                                                                "as_path", "clone", "deref", "as_ref", "canonicalize"):
+                return ok(a[0]) if end == "canonicalize" else (PathTok((end, a[0], a[1] if len(a) > 1 else None)) if end in ("join", "with_extension") else a[0])
+            if ("path::Path" in c or "PathBuf" in c) and end in ("exists", "is_file", "try_exists"):
+                return ok(True) if end == "try_exists" else True
+            if c.endswith("io::file_char_stream"):
+                return ok(Val("char-stream"))
+            if c.endswith("Lexer::from_char_stream"):
+                return Val("lexer")
+            if c.endswith("Parser::from_lexer"):
+                return parser
+            if a and a[0] is parser and end in ("into_iter", "by_ref"):
+                return parser
+            if a and a[0] is parser and c.endswith("::next"):
+                i = k[0]
+                k[0] += 1
+                return some(seq[i]) if i < len(seq) else none()
+            if a and a[0] is parser and end in ("find_map", "find", "try_fold", "filter_map", "map", "filter", "try_for_each"):
+                items = machine.Iter(seq[k[0]:])
+                k[0] = len(seq)
+                return mc._iter_model(c, end, [items] + list(a[1:]), tt, g)
+            if c == ITP + "new_library" or c == ITP + "eval_library_definition":
+                return ok(inst)
+            return NOT
+        mc = Machine(fb, intercept=icpt, max_visits=10, budget=900)
+        try:
+            res = mc.run(f, [selfv, located])
+        except (absint.Stuck, absint.Loop) as e:
+            rows.append((scenario, {"stuck": str(e)}))
+            continue
+        rows.append((scenario, {"result": res, "registered": [k0 for k0, v in factories.d.values()], "cached": [k0 for k0, v in cache.d.values()],
+                                "want": want, "other": other}))
+    return f, rows
+
+
+def rule_file_load(ctx, rule):
+    """reading a library file for one name registers and caches nothing under any other name: a failed or successful import of (foo)
+    must not make a later import of (bar) succeed or fail differently"""
+    fb = ctx.fb()
+    from .ctx import where_of
+    try:
+        f, rows = file_load_table(fb)
+    except mir.AnchorMissing as e:
+        ctx.undecided(rule, "file-load", str(e))
+        return 0
+    decided = 0
+    for scenario, d in rows:
+        key = "file-load/%s" % scenario
+        if "stuck" in d:
+            ctx.undecided(rule, key, "cannot follow get_library on a library file (%s)" % d["stuck"], where_of(f))
+            continue
+        decided += 1
+        foreign = [x for x in d["registered"] + d["cached"] if x is not d["want"]]
+        found = scenario.startswith("other")
+        res_ok = (getattr(d["result"], "name", None) == "Ok") == found
+        good = not foreign and res_ok
+        ctx.inst(rule, key, {"registered_or_cached_under_another_name": len(foreign), "result": getattr(d["result"], "name", None)})
+        ctx.oblige(good)
+        if foreign:
+            ctx.report(rule, key, "reading the file of the requested library (%s) leaves the OTHER library the file holds registered / cached: a "
+                       "later import of that name succeeds although no file of its own exists — the outcome of an import depends on which "
+                       "imports were attempted before" % ("which the file holds after another one" if found else "which the file does not hold"), where_of(f))
+        elif not res_ok:
+            ctx.report(rule, key, "importing a library whose file %s yields %r" % ("holds it after another library" if found else "holds only another library",
+                                                                                  d["result"]), where_of(f))
     return decided
